@@ -564,7 +564,7 @@ func (fe *FactEngine) step(ff *fnFacts, ins ssa.Instruction, st DNF, depth int) 
 			if vKnown && isPointerLike(ins.Val.Type()) && !v.Contains(p) {
 				a.addAtoms([]atom{{"n:" + v.String(), v, vNonNil}})
 			}
-			if v.Op != OpConst && !v.Contains(p) && (p.Op == OpDeref && p.Args[0].Op == OpLocal) {
+			if v.Op != OpConst && !v.Contains(p) && rootedAtLocal(p) {
 				// the local now holds v on this path
 				a.setBind(p, v)
 				if isPointerLike(ins.Val.Type()) && fe.knownNonNil(ins.Val) {
@@ -655,6 +655,26 @@ func (fe *FactEngine) step(ff *fnFacts, ins ssa.Instruction, st DNF, depth int) 
 		return st
 	}
 	return st
+}
+
+// rootedAtLocal: p is a local variable or a field/element path inside one (no pointer hops).
+func rootedAtLocal(p *Term) bool {
+	for p != nil {
+		switch p.Op {
+		case OpField:
+			p = p.Args[0]
+		case OpIndex:
+			if p.Args[1].Op != OpConst {
+				return false
+			}
+			p = p.Args[0]
+		case OpDeref:
+			return p.Args[0].Op == OpLocal
+		default:
+			return false
+		}
+	}
+	return false
 }
 
 func (ts *Terms) cellOf(addr ssa.Value) *cellInfo {
